@@ -358,14 +358,24 @@ def decoder_case(p, res):
         for kk, nn in ((8, 16), (16, 32)):
             e2 = E.PolarCodeEncoder(kk, nn, frozen_zeros=True, load_rank=True)
             codes.append((e2, (lambda e2=e2: D.SuccessiveCancellationDecoder(e2)) if dec == "sc" else (lambda e2=e2: D.BeliefPropagationPolarDecoder(e2, bp_iters=10))))
-    for e_, mk_ in codes:
+    # every option set of the message-passing consumers (exact / series arctanh, iteration counts, min-sum scalings): the polarity convention does
+    # not depend on how the check-node rule is evaluated
+    if dec in ("bp", "bp-irregular"):
+        for at in (True, False):
+            for it in (1, 2, 5, 12):
+                if (at, it) != (True, 12):
+                    codes.append((enc, (lambda at=at, it=it: D.BeliefPropagationDecoder(enc, bp_iters=it, arctanh=at)), f",arctanh={int(at)},it={it}"))
+    if dec in ("minsum", "minsum-irregular"):
+        for kw in ({"bp_iters": 2}, {"bp_iters": 5, "scaling_factor": 0.8}, {"bp_iters": 5, "offset": 0.3}, {"bp_iters": 5, "normalized": True}):
+            codes.append((enc, (lambda kw=kw: D.MinSumLDPCDecoder(enc, **kw)), "," + ",".join(f"{a}={b}" for a, b in kw.items())))
+    for e_, mk_, *tag in codes:
         n_, k_ = int(e_.code_length), int(e_.code_dimension)
         ms = [list(m) for m in product([0, 1], repeat=k_)] if k_ <= 8 else [[(i >> j) & 1 for j in range(k_)] for i in list(range(0, 1 << k_, 257))[:256]]
         xm = torch.tensor(ms, dtype=torch.float32)
         cw_ = e_(xm)
         d_ = mk_()
-        for mag in (1e-3, 1e-2, 1e2, 1e3):
-            cfg = f"n={n_},k={k_},magnitude={mag}"
+        for mag in (1e-3, 1e-2, 1.0, 8.0, 18.0, 20.0, 30.0, 1e2, 1e3):
+            cfg = f"n={n_},k={k_},magnitude={mag}" + (tag[0] if tag else "")
             try:
                 out = d_((1 - 2 * cw_) * mag)
             except Exception as e:  # noqa: BLE001
